@@ -177,6 +177,7 @@ def g_rel(key):
         j >= 1,
         j < condim,
         condim > 1,
+        condim <= 6,
         R.term("contact_efc_address_in[tid0, 0] >= 0"),
         z3.substitute(R.term("contact_efc_address_in[tid0, tid1] >= 0"), (dimid, j)),
         z3.substitute(R.term("contact_efc_address_in[tid0, tid1]"), (dimid, j)) != efc0,
